@@ -4,6 +4,9 @@
 
 pub mod util;
 pub mod env;
+pub mod dest;
+pub mod c09_dir_section;
 pub mod c12_sanitize;
 pub mod c20_skip_stacks;
 pub mod c15_thread_names;
+pub mod c16_mem_writer;
